@@ -39,6 +39,22 @@ def localStart (s : State) (g : Nat) : List Op :=
   | some grp => [resetReplicaIndex g (ackIndex grp + 1)]
   | none => []
 
+/-- the position part of `remoteReplicator.IsReady` (replica/replicator_remote.go) once the follower has
+answered its last acknowledged index `rAck` (`remoteLastReplicaAckIdx`); the skeleton of the source —
+assignments, conditions, calls, which branches return — is the regenerated fact `remoteHandshake`:
+  next := rAck + 1;  next == ReplicaIndex()            ⇒ nothing
+  rAck < AckIndex()                                    ⇒ (follower reset over the wire) ResetReplicaIndex(AckIndex()+1); return
+  next > AppendIndex()  ⇒ ResetAppendIndex(next)       (explicit index reset: the leader lost WAL data)
+  ResetReplicaIndex(next); SetAckIndex(rAck) -/
+def handshakeOps (s : State) (g : Nat) (rAck : Int) : List Op :=
+  match lookup s.live g with
+  | none => []
+  | some grp =>
+    if rAck + 1 = replicaIndex grp then []
+    else if rAck < ackIndex grp then [resetReplicaIndex g (ackIndex grp + 1)]
+    else (if rAck + 1 > appendIndex s.q then [resetAppendIndex (rAck + 1)] else []) ++
+      [resetReplicaIndex g (rAck + 1), setAckIndex g rAck]
+
 /-- the answers of `k` successful Consume calls starting at sequence `a` -/
 def seqFrom (a : Int) : Nat → List Res
   | 0 => []
